@@ -44,7 +44,7 @@ public:
   // Populates the buffer with the lowercase base16 representation of the flags.
   void ToLowerBase16(nostd::span<char, 2> buffer) const noexcept
   {
-    constexpr char kHex[] = "0123456789ABCDEF";
+    constexpr char kHex[] = "0123456789abcdef";
     buffer[0]             = kHex[(rep_ >> 4) & 0xF];
     buffer[1]             = kHex[(rep_ >> 0) & 0xF];
   }
